@@ -97,7 +97,23 @@ def rule_g(repo, chk):
 
 
 def _under(n, lock):
-    return lock in pat.with_exprs(n)
+    """Is CFG node n inside a critical section of *lock*: `with lock:` or `lock.acquire()` … `try: … finally: lock.release()`."""
+    if lock in pat.with_exprs(n):
+        return True
+    for k, a in n.ctx:
+        if k == 'try' and a.finalbody and any(src(c.func) == f'{lock}.release' for st in a.finalbody for c in calls_in(st) if isinstance(c.func, ast.Attribute)):
+            # the acquire precedes the try (or opens its body)
+            parent_body = getattr(getattr(a, '_parent', None), 'body', [])
+            prev = None
+            for st in parent_body:
+                if st is a:
+                    break
+                prev = st
+            first = a.body[0] if a.body else None
+            for cand in (prev, first):
+                if cand is not None and any(isinstance(c.func, ast.Attribute) and src(c.func) == f'{lock}.acquire' for c in calls_in(cand)):
+                    return True
+    return False
 
 
 def _reduce0(n):
